@@ -9,9 +9,10 @@ E1  TLC-emitted queue shapes over {tiny, signature-heavy} concretized with real 
     wrapper, challenge messages) and to the real QUIC transport (loopback pair); framing round trips at
     boundary sizes; raw oversized headers.
 E2  recorded events judged by TLC against Trace_Transport (conformance + monitor, then monitor).
-Quick tier: signature-heavy class calibrated small (no real queue can reach the batcher's threshold in the
-time budget); thorough tier: additionally a real queue of 9 envelopes of ~4 MiB, which the batcher must cut
-(a batcher that accounts less than the signed length admits all 9 and the bundle exceeds 32 MiB)."""
+Both tiers: one real over-threshold queue built cheaply: 9 storage transactions with 2.48 MB of extra each
+(unsigned payloads just under 2/3 of 32 MiB in sum) and 76 x 249 real signatures each (signed envelopes just
+over 32 MiB in sum): the batcher must cut it; a batcher that accounts less than the signed length admits all 9
+and the bundle exceeds 32 MiB. Thorough tier: additionally 9 envelopes of ~4 MiB made of signatures only."""
 import json, os, random, re
 
 PROPS = ["C31"]
@@ -58,6 +59,12 @@ def run(ctx, args):
     # batcher must admit all of them)
     for s in over[:2]:
         cases.append({"name": "".join(s["shape"]) + "-scaled", "txs": concretize(s["shape"], heavy_small)})
+    # the ACCOUNTING instance (both tiers): 9 storage transactions whose unsigned payloads (2.48 MB of extra each)
+    # sum to just under the batcher's threshold of 2/3 x 32 MiB while their signed envelopes (76 inputs x 249 real
+    # signatures each, ~1.7e5 signatures in all) sum to just over 32 MiB. A batcher that accounts the signed length
+    # stops at 5; one that accounts the unsigned payload admits all 9 and the bundle exceeds the maximum.
+    acct = {"inputs": 76, "sigs": 249, "extra": 2479000}
+    cases.append({"name": "accounting-real", "txs": [dict(acct) for _ in range(9)]})
     if not quick:
         # REAL scale: signature-heavy = 256 inputs x 247 signatures (envelope just under the 4 MiB cap,
         # payload ~ 10 KiB); 9 of them = 37.7 MB of envelopes: the batcher must stop at 5 (< 2/3 of 32 MiB)
@@ -118,9 +125,9 @@ def run(ctx, args):
     ctx.assumptions += [
         "the batch is observed as the self snapshot the batcher appends to its chain's cache pool (the node is made to "
         "believe its peers are in step); the peer path sends the same batch through SendTransactionsMessage",
-        "quick tier: the signature-heavy class is calibrated small (4 inputs x 16 signatures); a real queue that reaches the "
-        "batcher's threshold needs >= 3.4e5 signatures, so a batcher that accounts too little (e.g. the unsigned payload) is "
-        "detected by the THOROUGH tier only (9 envelopes of ~4 MiB, ~5.7e5 signatures)",
+        "the TLC-emitted shapes are concretized at a calibrated small scale (signature-heavy = 4 inputs x 16 signatures in the "
+        "quick tier); the batcher's threshold is reached by one real instance per run: storage transactions with 2.48 MB of "
+        "extra each and ~1.7e5 real signatures in all (payload sum < 2/3 max < max < envelope sum)",
         "transactions of one batch spend the same funded outputs (the batcher validates, it does not lock inputs)",
         "allocation before the size check is detected through runtime.MemStats.TotalAlloc around the real Receive",
     ]
